@@ -124,10 +124,23 @@ struct LinkOptions {
     output: PathBuf,
 }
 
+/// The passes recurse over the program tree, and a long function body is a deep tree (every
+/// statement nests the rest of the block), so the work runs on a thread with a roomy stack.
+const COMPILER_STACK_BYTES: usize = 1 << 30;
+
 fn main() {
-    if let Err(err) = run_cli() {
-        eprintln!("{err}");
-        std::process::exit(1);
+    let worker = std::thread::Builder::new()
+        .name("goml".to_string())
+        .stack_size(COMPILER_STACK_BYTES)
+        .spawn(run_cli)
+        .expect("failed to start the compiler thread");
+    match worker.join() {
+        Ok(Ok(())) => {}
+        Ok(Err(err)) => {
+            eprintln!("{err}");
+            std::process::exit(1);
+        }
+        Err(_) => std::process::exit(101),
     }
 }
 
